@@ -35,6 +35,11 @@ CLAIMED = {
          "seeded search over read sizes (0..131071, around the 60000 chunk boundary), 1-4 successive reads, send buffers, and scripts of <= 12 per-call socket behaviours, with and without MSG_WAITALL, ssl-like sockets, blocking and timeout mode, directly and through SocketConnection; oracle: exact bytes and cursor on return, only Pyro ConnectionClosedError/TimeoutError otherwise, outcome matches the last executed behaviour, partialData on early EOF, termination bound",
          "samples scripts; one socket call performs exactly one scripted behaviour; retryable errno set is the harness's own list",
          "DESIGN.md section 4 C17"),
+ "C05": ("exploration",
+         "deterministic simulation: real Daemon (thread-pool and multiplex servers) with real witness proxies and scripted hostile raw peers over in-memory sockets; seeded scheduler interleaves hostile bytes with witness traffic; liveness checked by virtual-time deadlines",
+         "seeded search over hostile scripts (structure-aware mutations of valid CONNECT/INVOKE/PING/batch/blob messages: every header field at boundary values, inconsistent length fields, oversize, bad tag/version/magic, unknown serializer/type, flag combinations, undecodable payloads, malformed annotation chunks, prefix truncations, garbage, unknown objects/members, methods raising unserialisable or otherwise nasty exceptions), sent before/after the handshake, ended by close or RST, x pool sizes 1..4 (pool-full refusal path) x COMMTIMEOUT x fragmentation x selector order x schedules; oracle: every witness call returns its own token, the request loop is alive and a fresh client is served afterwards, no worker or selector slot is stranded, no server thread died",
+         "samples scripts and schedules; hostile scripts always end in close/RST; RST-on-close-with-unread-data and SSL are not modelled",
+         "DESIGN.md section 4 C05"),
 }
 PENDING = "claimed in DESIGN.md but its check is not built yet; see DESIGN.md section 4"
 ALL = ["C%02d" % i for i in range(1, 21)]
